@@ -85,7 +85,8 @@ deriving Repr, DecidableEq
 
 inductive FqItem where
   | record (r : FqRec)
-  | err (e : FqErr)
+  /-- the first error, with the start (byte offset, line) of the offending group -/
+  | err (e : FqErr) (byte line : Nat)
 deriving Repr, DecidableEq
 
 /-- id reported with an error: present iff the header line is not empty -/
@@ -97,15 +98,15 @@ def errId (h : List UInt8) : Option (List UInt8) :=
 (the repaired code). -/
 def fqGroup (strict : Bool) (h s p q : List UInt8) (byte line : Nat) : FqItem :=
   let c0 := h.headD LF
-  if c0 ≠ AT then .err (.invalidStart c0 line)
+  if c0 ≠ AT then .err (.invalidStart c0 line) byte line
   else
     let c2 := p.headD LF
-    if c2 ≠ PLUS then .err (.invalidSep c2 (line + 2) (errId h))
+    if c2 ≠ PLUS then .err (.invalidSep c2 (line + 2) (errId h)) byte line
     else
       let ts := trimCr s
       let tq := trimCr q
       if s.length ≠ q.length ∧ (strict ∨ ts.length ≠ tq.length) then
-        .err (.unequalLengths ts.length tq.length line (errId h))
+        .err (.unequalLengths ts.length tq.length line (errId h)) byte line
       else .record { byte := byte, line := line, head := trimCr (h.drop 1), seq := ts, qual := tq }
 
 /-- `ps` = the pieces ahead, the last one being the unterminated rest of the input. -/
@@ -114,16 +115,16 @@ def fqGo (strict : Bool) : List (List UInt8) → Nat → Nat → List FqItem
     -- at least four terminated pieces
     match fqGroup strict h s p q byte line with
     | .record x => .record x :: fqGo strict (r :: rest) (byte + h.length + s.length + p.length + q.length + 4) (line + 4)
-    | .err e => [.err e]
+    | .err e b l => [.err e b l]
   | [h, s, p, q], byte, line =>
     -- three terminated pieces, the quality line is ended by the end of the input
     [fqGroup strict h s p q byte line]
-  | ps, _, line =>
+  | ps, byte, line =>
     -- fewer than three terminated pieces
     if ps.all blank then []
     else
       let k := ps.length - 1
-      [.err (.unexpectedEnd (line + k) (if k ≥ 1 then errId (ps.headD []) else none))]
+      [.err (.unexpectedEnd (line + k) (if k ≥ 1 then errId (ps.headD []) else none)) byte line]
 
 /-- The FASTQ reference semantics (`strict = false`: repaired tree). -/
 def fastq (inp : List UInt8) (strict : Bool := false) : List FqItem :=
